@@ -132,9 +132,15 @@ def run_case(case):
         py2 = respell(T, py)
         if py2 is not None:
             py = py2
-    for codec in ('BER', 'CER', 'DER'):
-        a = lib.encode(codec, py, asn1Spec=sch)
-        b = lib.encode(codec, r)
+    variants = [('BER', {}), ('CER', {}), ('DER', {})]
+    if case.get('mode'):
+        # the BER encoder modes apply to the value-plus-schema path as they do to value objects
+        variants.append(('BER', {'defMode': bool(case['mode'][0]), 'maxChunkSize': int(case['mode'][1])}))
+    for codec, kw in variants:
+        a = lib.encode(codec, py, asn1Spec=sch, **kw)
+        b = lib.encode(codec, r, **kw)
+        if kw:
+            codec = 'BER-mode'
         if a.ok != b.ok:
             F(codec.lower() + '-pyvalue', 'one-raises', 'encode(py, asn1Spec) %s; encode(valueObject) %s | py=%s' % (a.brief(), b.brief(), absval.short(py, 120)),
               a.sig or b.sig)
@@ -196,12 +202,14 @@ def nontrivial(T, v):
 
 def run_shard(desc, seed, tier, col):
     def body(x):
-        T, v, tape, spell = x
+        T, v, tape, spell, mode = x
         case = {'T': T, 'v': v}
         if tape is not None:
             case['tape'] = tape
         if spell:
             case['spell'] = True
+        if mode is not None:
+            case['mode'] = list(mode)
         feats = ['depth=%d' % ir.depth(T)]
         for t, y in fz.present_nodes(T, v):
             if t['k'] in ir.RECORD_KINDS and any(c['p'] == 'opt' and c['name'] not in y for c in t['comps']):
@@ -232,7 +240,7 @@ def run_shard(desc, seed, tier, col):
                 tape = t.tape
             except Exception:
                 tape = t.tape
-        return T, v, tape, 'ENUMERATED' in ir.kinds_in(T) and d.pct(50)
+        return T, v, tape, 'ENUMERATED' in ir.kinds_in(T) and d.pct(50), (draw(gen.ber_modes()) if d.pct(60) else None)
 
     harness.run_given(cases(), body, seed, desc['examples'], col)
 
